@@ -6,6 +6,8 @@
 //!   attoverif replay <ID> <file>
 //!   attoverif list
 
+#[cfg(any(feature = "native", feature = "rustls"))]
+mod bridge;
 mod client;
 mod driver;
 mod framework;
